@@ -1,20 +1,324 @@
-"""C19 — storage tokens are stable handles. K: Kani over histories of append / fetch_or_append
-(Storage<u8> and Storage<Odd> with non-reflexive equality) against an array model."""
+"""C19 — storage tokens are stable handles.
+
+K   Kani over histories of append / fetch_or_append (Storage<u8>, Storage<Odd> with non-reflexive equality, Storage<Keyed> whose
+    equality ignores a payload field, so 'the stored value is kept on a hit' is observable) against an array model.
+M2  one-step induction on the generic MIR of `Storage::<T>::{append, fetch_or_append}`, `Index<Token<T>>` and `Token::index`:
+    the pre-state is a storage of concrete length L (every L <= LMAX) holding L opaque values e0..e(L-1); the argument is an
+    opaque value v; `T::eq` is an uninterpreted predicate (one free Boolean per compared pair: any equality, reflexive or not).
+    `Iterator::position` is summarised as 'index of the first element the closure accepts' and runs the real closure's MIR.
+    For every path: the post-state and the returned index are compared with the specification by z3 —
+      append:           index = L, data' = data ++ [v];
+      fetch_or_append:  first i with eq(e_i, v) -> index = i and data' = data (same values, same places), none -> as append;
+      lookup(token i):  the i-th element, i < L (no panic edge reachable).
+    Since every operation leaves a prefix untouched and only ever pushes at the end, the step covers histories of any length
+    whose storage stays within LMAX elements."""
+import z3
 import kani
+import sym
+import mir
+import reg as regmod
+from common import mir_path, Replay
+from smt import Q
 
 LEVEL = "model_checking"
 
 
+def m_deref(engine, st, fr, callee, args, ops):
+    return sym.Adt("Slice", None, [args[0]])
+
+
+def _slice_items(engine, st, v):
+    """-> (ref to the Arr, offset, items) for a &Vec / &[T] / Slice view."""
+    off = 0
+    while True:
+        x = sym._deref_arg(engine, st, v) if isinstance(v, sym.Ref) else v
+        if isinstance(x, sym.Adt) and x.ty == "Slice":
+            if len(x.fields) > 1:
+                off += x.fields[1]
+            v = x.fields[0]
+            continue
+        if isinstance(x, sym.Arr):
+            return v, off, x.items
+        raise mir.Unsupported("slice view of %r" % (x,))
+
+
+def m_slice_iter(engine, st, fr, callee, args, ops):
+    r, off, items = _slice_items(engine, st, args[0])
+    return sym.Adt("SliceIterP", None, [r, off])
+
+
+def m_range_from(engine, st, fr, callee, args, ops):
+    r, off, items = _slice_items(engine, st, args[0])
+    rng = args[1]
+    start = rng.fields[0] if isinstance(rng, sym.Adt) else rng
+    s = sym._concrete_index(start)
+    if s is None:
+        raise mir.Unsupported("symbolic range start")
+    if s > len(items) - off:
+        return sym.Panic(("slice start index out of range", fr.fn.name, fr.bb))
+    return sym.Adt("Slice", None, [r, off + s])
+
+
+def m_range_to(engine, st, fr, callee, args, ops):
+    raise mir.Unsupported("RangeTo slicing is not modelled")
+
+
+def m_saturating_sub(engine, st, fr, callee, args, ops):
+    a, b = args
+    return z3.simplify(z3.If(z3.ULT(a, b), z3.BitVecVal(0, a.size()), a - b))
+
+
+def m_position(engine, st, fr, callee, args, ops):
+    """std's `Iterator::position`: index (relative to the iterator's start) of the first element the predicate accepts.
+    The predicate is the real closure, run from its MIR on a reference to each element."""
+    it = sym._deref_arg(engine, st, args[0])
+    clo = args[1]
+    if not (isinstance(it, sym.Adt) and it.ty == "SliceIterP"):
+        raise mir.Unsupported("position on %r" % (it,))
+    r, off = it.fields
+    arr = sym._deref_arg(engine, st, r)
+    if not isinstance(clo, sym.FnV):
+        raise mir.Unsupported("position with a predicate %r" % (clo,))
+    fn = engine.resolve_fn(clo.name)
+    conds = []
+    cell = ("h", engine.fresh_name("clo"))
+    st.mem[cell] = clo
+    for i in range(off, len(arr.items)):
+        res = engine.call_pure(st, fn, [sym.Ref(cell, (), True), sym.Ref(r.root, r.path + (("index_c", i),))])
+        if len(res) != 1 or res[0].status != "return":
+            raise mir.Unsupported("the predicate forks or panics: %r" % (res,))
+        c = res[0].value
+        conds.append(c if z3.is_bool(c) else c != 0)
+    alts = []
+    none_before = []
+    for k, c in enumerate(conds):
+        alts.append((z3.simplify(z3.And(*(none_before + [c]))), sym.Adt("Option", "Some", [z3.BitVecVal(k, 64)])))
+        none_before.append(z3.Not(c))
+    alts.append((z3.simplify(z3.And(*none_before)) if none_before else True, sym.Adt("Option", "None", [])))
+    return sym.Fork(alts)
+
+
+HINT = "rspirv/sr/storage.rs"
+
+
+def _storage_fn(engine, last, nargs):
+    for mf in engine.mirs:
+        c = [mf.parse_item(ln) for _, _, ln in mf.find(last, file_hint=HINT, kind="fn")]
+        c = [f for f in c if len(f.args) == nargs]
+        if len(c) == 1:
+            return c[0]
+    raise mir.Unsupported("cannot resolve %s/%d in %s" % (last, nargs, HINT))
+
+
+def m_inline(last, nargs):
+    def h(engine, st, fr, callee, args, ops):
+        return sym.Inline(_storage_fn(engine, last, nargs), args)
+    return h
+
+
+MODELS = [
+    (r"^sr::storage::Token::<T>::new$", m_inline("new", 1)),
+    (r"^sr::storage::Storage::<T>::append$", m_inline("append", 2)),
+    (r"^<Vec<T> as Deref>::deref$", m_deref),
+    (r"^core::slice::<impl \[T\]>::iter$", m_slice_iter),
+    (r"Index<std::ops::RangeFrom<usize>>>::index$", m_range_from),
+    (r"Index<std::ops::RangeTo<usize>>>::index$", m_range_to),
+    (r"^core::num::<impl usize>::saturating_sub$", m_saturating_sub),
+    (r"^<std::slice::Iter<'_, T> as Iterator>::position::<", m_position),
+]
+
+
+def eq_atoms(expr):
+    out = set()
+
+    def walk(e):
+        if z3.is_const(e) and e.decl().kind() == z3.Z3_OP_UNINTERPRETED and z3.is_bool(e):
+            out.add(str(e))
+        for c in e.children():
+            walk(c)
+    walk(expr)
+    return out
+
+
+def storage_step(ctx, lmax):
+    registry = regmod.build_registry()
+    mf = mir.MirFile(mir_path("rspirv"))
+    q = Q(ctx)
+    hint = HINT
+    f_append = mf.get("append", file_hint=hint, kind="fn")
+    f_fetch = mf.get("fetch_or_append", file_hint=hint, kind="fn")
+    idx_c = [c for c in mf.find("index", file_hint=hint, kind="fn")]
+    f_index = f_tokidx = None
+    for name, k, ln in idx_c:
+        it = mf.parse_item(ln)
+        if len(it.args) == 2:
+            f_index = it
+        elif len(it.args) == 1:
+            f_tokidx = it
+    if f_index is None or f_tokidx is None:
+        raise mir.Unsupported("Index<Token<T>> / Token::index not found in the MIR dump")
+    n_paths = 0
+
+    def mk_engine():
+        return sym.Engine([mf], registry, models=MODELS, eager=True)
+
+    def token_index(eng, st_mem, tok):
+        """Token::index on the returned token, from its MIR."""
+        cell = ("h", "tok")
+        mem = dict(st_mem)
+        mem[cell] = tok
+        res = eng.run(f_tokidx, [sym.Ref(cell, ())], mem=mem)
+        if len(res) != 1 or res[0].status != "return":
+            raise mir.Unsupported("Token::index does not return a single value")
+        return res[0].value
+
+    def data_of(eng, mem):
+        s = mem[("h", "s")]
+        d = s.fields[0]
+        if not isinstance(d, sym.Arr):
+            raise mir.Unsupported("storage data is %r" % (d,))
+        return d.items
+
+    def same(a, b):
+        return isinstance(a, sym.Sym) and isinstance(b, sym.Sym) and a.name == b.name and not a.over and not b.over
+
+    for L in range(0, lmax + 1):
+        elems = [sym.Sym("e%d" % i, "T") for i in range(L)]
+        v = sym.Sym("v", "T")
+        s0 = sym.Adt("sr::storage::Storage", None, [sym.Arr(elems, "vec")])
+        for opname, fn in (("append", f_append), ("fetch_or_append", f_fetch)):
+            eng = mk_engine()
+            res = eng.run(fn, [sym.Ref(("h", "s"), (), True), v], mem={("h", "s"): s0})
+            ctx.functions.update(eng.stats.functions)
+            tag = "step/%s/len-%d" % (opname, L)
+            covered = []
+            bad = None
+            for r in res:
+                n_paths += 1
+                pc = z3.And(*r.pc) if r.pc else z3.BoolVal(True)
+                if r.status != "return":
+                    rr = q.check([pc], "panic-edge")
+                    if rr[0] == "unknown":
+                        raise mir.Unsupported("solver: %s" % (rr[1],))
+                    if rr[0] == "sat":
+                        bad = ("a panic edge is reachable: %s %s" % (r.status, r.info), pc)
+                        break
+                    continue
+                idx = token_index(eng, r.mem, r.value)
+                data = data_of(eng, r.mem)
+                # the specification, as a formula over the equality atoms
+                atoms = [sym.struct_eq(eng, None, elems[i], v) for i in range(L)] if opname == "fetch_or_append" else []
+                hit = None
+                if len(data) == L and all(same(a, b) for a, b in zip(data, elems)):
+                    shape = "unchanged"
+                elif len(data) == L + 1 and all(same(a, b) for a, b in zip(data, elems)) and same(data[L], v):
+                    shape = "appended"
+                else:
+                    shape = "other"
+                if opname == "append":
+                    want = z3.BoolVal(shape == "appended") if shape != "appended" else (idx == L)
+                else:
+                    nohit = z3.And(*[z3.Not(a) for a in atoms]) if atoms else z3.BoolVal(True)
+                    cases = [z3.And(nohit, z3.BoolVal(shape == "appended"), idx == L)]
+                    before = []
+                    for i, a in enumerate(atoms):
+                        cases.append(z3.And(*(before + [a, z3.BoolVal(shape == "unchanged"), idx == i])))
+                        before.append(z3.Not(a))
+                    want = z3.Or(*cases)
+                covered.append(pc)
+                rr = q.check([pc, z3.Not(want)], "path-post")
+                if rr[0] == "unknown":
+                    raise mir.Unsupported("solver: %s" % (rr[1],))
+                if rr[0] == "sat":
+                    bad = ("returns index %s with the data %s" % (z3.simplify(idx), shape), z3.And(pc, z3.Not(want)))
+                    break
+            if bad is None and q.check([z3.Not(z3.Or(*covered)) if covered else z3.BoolVal(True)], "paths-exhaustive")[0] != "unsat":
+                bad = ("some equality outcomes have no returning path", z3.Not(z3.Or(*covered)) if covered else z3.BoolVal(True))
+            if bad is None:
+                ctx.ob(tag, True)
+                continue
+            # witness: which elements compare equal to the argument
+            s = z3.Solver()
+            s.add(bad[1])
+            s.check()
+            m = s.model()
+            eqs = []
+            for i in range(L):
+                a = sym.struct_eq(eng, None, elems[i], v)
+                eqs.append(bool(z3.is_true(m.eval(a, model_completion=True))))
+            confirm(ctx, tag, opname, eqs, bad[0])
+            return n_paths
+        # lookup through every token of a storage of length L (and one past the end is the caller's error, outside the property)
+        eng = mk_engine()
+        for i in range(L):
+            if L > 6 and i not in (0, 1, L // 2, L - 2, L - 1):
+                continue
+            tok = sym.Adt("sr::storage::Token", None, [z3.BitVecVal(i, 32), sym.UNIT])
+            res = eng.run(f_index, [sym.Ref(("h", "s")), tok], mem={("h", "s"): s0})
+            ok = len(res) == 1 and res[0].status == "return"
+            if ok:
+                x = res[0].value
+                while isinstance(x, sym.Ref):
+                    x = eng.read_at(_st(res[0].mem), x.root, x.path)
+                ok = same(x, elems[i])
+            if not ok:
+                ctx.ob("step/lookup/len-%d/token-%d" % (L, i), False, repr(res)[:200])
+                confirm(ctx, "step/lookup/len-%d" % L, "lookup", [False] * L, "token %d does not yield the %d-th value" % (i, i), lookup=i)
+                return n_paths
+        ctx.ob("step/lookup/len-%d" % L, True)
+    return n_paths
+
+
+class _st:
+    def __init__(self, mem):
+        self.mem = mem
+
+
+def confirm(ctx, tag, opname, eqs, what, lookup=None):
+    """Replay the witness natively: a storage of len(eqs) values whose equality with the argument is as in the model."""
+    rp = Replay()
+    ans = rp.ask("storage_step %s %s" % (opname, "".join("1" if e else "0" for e in eqs) or "-"))
+    rp.close()
+    L = len(eqs)
+    first = eqs.index(True) if True in eqs else None
+    if opname == "append" or first is None:
+        want = dict(index=L, len=L + 1, kept=True)
+    else:
+        want = dict(index=first, len=L, kept=True)
+    got = {k: ans.get(k) for k in ("index", "len", "kept")}
+    if "panic" in ans or got != want:
+        ctx.ob(tag, False, "%s; native: %s, expected %s" % (what, ans, want))
+        ctx.violation("storage/%s" % opname,
+                      "%s on a storage of %d values, equal-to-argument pattern %s: %s; the real Storage answers %s, the property demands %s"
+                      % (opname, L, "".join("1" if e else "0" for e in eqs), what, ans, want),
+                      {"op": opname, "eq_pattern": eqs, "native": ans, "expected": want})
+    else:
+        ctx.ob(tag, None, "model-only deviation (%s); the real code answers as specified: %s" % (what, ans))
+
+
 def run(ctx):
     n = 4 if ctx.tier == "quick" else 6
-    hs = ["k_storage_u8_%d" % n, "k_storage_odd_%d" % n]
-    ctx.bounds.append("histories of <= %d operations, any operation kinds and any u8 values; instantiations Storage<u8>, Storage<Odd>" % n)
-    ctx.assumptions += ["outside the bound: longer histories; u32 truncation of the index at 2^32 elements",
-                        "CBMC unwinding assertions are on (a too-small unwind bound is a failure, not a pass)"]
-    ctx.trusted += ["Kani 0.68 / CBMC 6.11 (cadical)", "scenario code /verif/kani/src/storage.rs (array model)"]
+    lmax = 24 if ctx.tier == "quick" else 64
+    hs = ["k_storage_u8_%d" % n, "k_storage_odd_%d" % n, "k_storage_keyed_%d" % n]
+    ctx.bounds.append("K: histories of <= %d operations, any operation kinds and any u8 values; instantiations Storage<u8>, Storage<Odd>, Storage<Keyed>" % n)
+    ctx.bounds.append("M2: one step of append / fetch_or_append from every storage of length 0..%d with opaque values and an uninterpreted "
+                      "equality; lookup through tokens 0..L-1" % lmax)
+    ctx.assumptions += ["outside the bound: storages of more than %d elements (M2) / histories of more than %d operations (K); u32 truncation of the index at 2^32 elements" % (lmax, n),
+                        "CBMC unwinding assertions are on (a too-small unwind bound is a failure, not a pass)",
+                        "M2 summary: Iterator::position = index of the first element the (real, MIR-executed) closure accepts; Vec::push/len/index built-in models"]
+    ctx.trusted += ["Kani 0.68 / CBMC 6.11 (cadical)", "scenario code /verif/kani/src/storage.rs (array model)", "rustc MIR (generic, pre-monomorphisation)", "mirsym"]
     ctx.functions.update(["rspirv::sr::storage::Storage::<T>::{new,append,fetch_or_append}", "Index<Token<T>> for Storage<T>", "Token::index"])
-    res = kani.run_many(hs, cap_s=300 if ctx.tier == "quick" else 1500)
-    kani.settle(ctx, res, lambda h: "storage_u8" if "u8" in h else "storage_odd")
-    ctx.extra["states"] = sum(r.checks_total for r in res.values()) or 1
+    try:
+        paths = storage_step(ctx, lmax)
+    except mir.Unsupported as ex:
+        ctx.ob("step/encodable", None, "Storage<T> step cannot be encoded: %s" % str(ex)[:300])
+        paths = 0
+    if not ctx.violations:
+        res = kani.run_many(hs, cap_s=300 if ctx.tier == "quick" else 1500)
+        kani.settle(ctx, res, lambda h: "storage_u8" if "u8" in h else ("storage_odd" if "odd" in h else "storage_keyed"))
+        ctx.extra["states"] = (sum(r.checks_total for r in res.values()) or 1) + paths
+    else:
+        ctx.extra["states"] = paths
     ctx.extra["transitions"] = n
-    ctx.extra["explanation"] = "CBMC decides the scenario for every byte string encoding a history of <= %d operations." % n
+    ctx.extra["explanation"] = ("CBMC decides the scenario for every byte string encoding a history of <= %d operations; z3 decides one step of "
+                                "each operation from every storage of <= %d opaque values under an arbitrary equality." % (n, lmax))
